@@ -21,6 +21,10 @@ theorem conv_i16 (x : Int) : (⟨16, true⟩ : ITy).conv x = wrapS 16 (wrapS 16 
   simp [ITy.conv, wrapS]; omega
 theorem conv_i32 (x : Int) : (⟨32, true⟩ : ITy).conv x = wrapS 32 (wrapS 32 x) := by
   simp [ITy.conv, wrapS]; omega
+theorem conv_i16' (x : Int) : (⟨16, true⟩ : ITy).conv x = wrapS 16 x := by
+  simp [ITy.conv, wrapS]; omega
+theorem conv_i32' (x : Int) : (⟨32, true⟩ : ITy).conv x = wrapS 32 x := by
+  simp [ITy.conv, wrapS]; omega
 theorem conv_i64 (x : Int) : (⟨64, true⟩ : ITy).conv x = wrapS 64 x := by
   simp [ITy.conv, wrapS]; omega
 theorem conv_i64' (x : Int) : (⟨64, true⟩ : ITy).conv x = wrapS 64 (wrapS 64 x) := by
@@ -34,11 +38,11 @@ theorem conv_u32' (x : Int) : (⟨32, false⟩ : ITy).conv x = wrapU 32 x := by
 theorem arith_imax_ok (p : Int) (hp : inRangeS 64 p = true) : arith imax p = .ok p := by
   have hpr : imax.inR p = true := by
     simp [inRangeS] at hp; simp [imax, ITy.inR, ITy.min, ITy.max]; omega
-  simp [arith, imax, hpr]
+  simp only [arith, hpr, show imax.sg = true from rfl, if_true]
 theorem arith_imax_err (p : Int) (hp : ¬ inRangeS 64 p = true) : ∃ e, arith imax p = .error e := by
   have hpr : imax.inR p = false := by
     simp [inRangeS] at hp; simp [imax, ITy.inR, ITy.min, ITy.max]; omega
-  simp [arith, imax, hpr, ub]
+  simp [arith, hpr, show imax.sg = true from rfl, ub]
 
 /-- quotient in `intmax_t` of an `intmax_t` value `p`: the three generated obligations are the model's "returns" -/
 theorem cdiv_imax (p den : Int) (hp : inRangeS 64 p = true) :
@@ -53,10 +57,10 @@ theorem cdiv_imax (p den : Int) (hp : inRangeS 64 p = true) :
       simp [C12.cdiv, ub, imax, ITy.min]
     · have hr := tdiv_signed_range 9223372036854775808 p den (by simp [inRangeS] at hp; omega) hd0 hm
       have h4 : inRangeS 64 (CSem.cdiv p den) = true := by
-        simp only [CSem.cdiv, inRangeS]; simp; omega
+        unfold inRangeS; b2p; simp [CSem.cdiv]; omega
       refine ⟨fun _ => ?_, fun h => ?_⟩
       · simp [C12.cdiv, hd0, CSem.cdiv]
-        intro h1 h2; exact absurd ⟨by simpa [imax, ITy.min] using h1, h2⟩ hm
+        intro _ h1 h2; exact absurd ⟨by simpa [imax, ITy.min] using h1, h2⟩ hm
       · exfalso
         simp [h4, hd0] at h
         exact hm ⟨h.1, h.2⟩
@@ -74,6 +78,7 @@ theorem nd_shape (T : ITy) (c c' num den r : Int) (hc : imax.conv c = c')
   have e3 := imax_conv den hd
   subst hr
   unfold castCore
+  dsimp only
   simp only [beq_iff_eq, hn1, hd1, Bool.false_and, Bool.false_eq_true, if_false, hc, e2, e3]
   generalize c' * num = p
   by_cases hp : inRangeS 64 p = true
@@ -81,11 +86,11 @@ theorem nd_shape (T : ITy) (c c' num den r : Int) (hc : imax.conv c = c')
     rw [arith_imax_ok p hp]
     simp only [hp, Bool.true_and, Bool.and_assoc] at q1 q2 ⊢
     refine ⟨fun h => ?_, fun h => ?_⟩
-    · simp [bind, Except.bind, q1 h]
+    · simp [hn1, hd1, bind, Except.bind, q1 h]
     · obtain ⟨e, he⟩ := q2 h
-      exact ⟨e, by simp [bind, Except.bind, he]⟩
+      exact ⟨e, by simp [hn1, hd1, bind, Except.bind, he]⟩
   · obtain ⟨e, he⟩ := arith_imax_err p hp
-    simp [hp, he, bind, Except.bind]
+    simp [hp, he, hn1, hd1, bind, Except.bind]
 
 /-- `NumIsOne` body `to_rep(CR(count) / CR(den))` -/
 theorem d_shape (T : ITy) (c c' den r : Int) (hc : imax.conv c = c') (hc' : inRangeS 64 c' = true)
@@ -98,12 +103,13 @@ theorem d_shape (T : ITy) (c c' den r : Int) (hc : imax.conv c = c') (hc' : inRa
   have e3 := imax_conv den hd
   subst hr
   unfold castCore
+  dsimp only
   simp only [beq_iff_eq, hd1, Bool.and_false, Bool.false_eq_true, if_false, if_true, hc, e3, beq_self_eq_true]
   obtain ⟨q1, q2⟩ := cdiv_imax c' den hc'
   refine ⟨fun h => ?_, fun h => ?_⟩
-  · simp [bind, Except.bind, q1 h]
+  · simp [hd1, bind, Except.bind, q1 h]
   · obtain ⟨e, he⟩ := q2 h
-    exact ⟨e, by simp [bind, Except.bind, he]⟩
+    exact ⟨e, by simp [hd1, bind, Except.bind, he]⟩
 
 /-- `DenIsOne` body `to_rep(CR(count) * CR(num))` -/
 theorem n_shape (T : ITy) (c c' num r : Int) (hc : imax.conv c = c')
@@ -114,12 +120,13 @@ theorem n_shape (T : ITy) (c c' num r : Int) (hc : imax.conv c = c')
   have e2 := imax_conv num hn
   subst hr
   unfold castCore
+  dsimp only
   simp only [beq_iff_eq, hn1, Bool.false_and, Bool.false_eq_true, if_false, if_true, hc, e2, beq_self_eq_true]
   generalize c' * num = p
   by_cases hp : inRangeS 64 p = true
-  · rw [arith_imax_ok p hp]; simp [hp, bind, Except.bind]
+  · rw [arith_imax_ok p hp]; simp [hp, hn1, bind, Except.bind]
   · obtain ⟨e, he⟩ := arith_imax_err p hp
-    simp [hp, he, bind, Except.bind]
+    simp [hp, he, hn1, bind, Except.bind]
 
 /-- both: `to_rep(count)` -/
 theorem id_shape (T : ITy) (c r : Int) (hr : T.conv c = r) :
@@ -128,8 +135,13 @@ theorem id_shape (T : ITy) (c r : Int) (hr : T.conv c = r) :
   simp [castCore]
 
 theorem wrapS64_inRange (c : Int) : inRangeS 64 (wrapS 64 c) = true := by
-  simp [inRangeS, wrapS]; omega
+  unfold inRangeS; b2p; simp [wrapS]; omega
 theorem inRange_i64 (c : Int) (h : -9223372036854775808 ≤ c ∧ c < 9223372036854775808) : inRangeS 64 c = true := by
   simp [inRangeS]; omega
+
+/-- `T.conv x` = the generated `static_cast<to_rep>` + constructor wraps -/
+macro "conv_tac" : tactic => `(tactic| first
+  | exact conv_i16 _ | exact conv_i32 _ | exact conv_i64 _ | exact conv_u32 _
+  | exact conv_i16' _ | exact conv_i32' _ | exact conv_i64' _ | exact conv_u32' _)
 
 end Tetl.C12.GenLemmas
